@@ -30,7 +30,8 @@ MANIFEST = {
             "main to a non-zero exit) unless the same call is retried, a failing path after the output was opened "
             "passes through the delete-output call, the writer/reader format constants agree, D5 the per-file "
             "code of main's loop does not write a global that the next file's processing reads as it finds it, "
-            "and D6 the output file is created and truncated when opened; decided by exhaustive exploration of a "
+            "D6 the output file is created and truncated when opened and D7 a stream-decrypting function returns "
+            "success only along paths through the tag comparison; decided by exhaustive exploration of a "
             "finite abstraction of each function and by effect summaries; asconsum's fopen/ferror error counters "
             "and all run-time behaviours (round trip for every content, tamper detection, real I/O faults) are "
             "not decided",
